@@ -73,7 +73,11 @@ def _default_sample(rng, hints):
         if "choices" in kw:
             vals[name] = rng.choice(kw["choices"])
         elif "lo" in kw and "hi" in kw:
-            vals[name] = rng.uniform(kw["lo"], kw["hi"])
+            if kw.get("edge") and rng.random() < 0.5:
+                # half of the samples hug the lower end (dimension-dependent lower bounds)
+                vals[name] = kw["lo"] + (kw["hi"] - kw["lo"]) * 10 ** (-rng.uniform(0.5, 3))
+            else:
+                vals[name] = rng.uniform(kw["lo"], kw["hi"])
         elif kw.get("pos"):
             vals[name] = math.exp(rng.gauss(0, 0.7))
         elif kw.get("nonneg"):
@@ -333,3 +337,33 @@ def replay_file(prop, path):
             return 0
     print("contract not found for", oid)
     return 3
+
+
+COMMON_TRUST = [
+    "T1 floats are treated as mathematical reals (no rounding, overflow, NaN unless stated)",
+    "T2 numpy object-dtype execution follows the float64 rules for indexing/broadcasting/ufunc dispatch",
+    "T3 shim table of gsvc/symrun.py (module-global np/float/scipy.special rebinding inside the verifier process only)",
+    "T4 ground facts for transcendental functions (gsvc/symrun.py:_facts_for) and logged hints",
+    "z3 5.1 (nlsat) / cvc5 1.0 soundness; ring-nf back end (gsvc/ringnf.py)",
+]
+
+
+def standard_run(rep, prop, modules, tier, seed, only):
+    import importlib
+    import gstools  # noqa: F401  the real code under verification (from core.REPO/src)
+    symrun.install_shims()
+    for m in modules:
+        importlib.import_module(m)
+    for t in COMMON_TRUST:
+        rep.trust(t)
+    rep.assume("gstools imported from %s" % os.path.dirname(gstools.__file__))
+    run_all(rep, prop, tier, seed, only)
+
+
+def standard_replay(prop, modules, path):
+    import importlib
+    import gstools  # noqa: F401
+    symrun.install_shims()
+    for m in modules:
+        importlib.import_module(m)
+    return replay_file(prop, path)
